@@ -40,6 +40,30 @@ def gen_case(rng, k):
     return fs
 
 
+def corpus_cases():
+    """file sets in which one declaration depends on many others at once: wherever the compiler
+    collects those in a hash table, the order of what it emits shows"""
+    M = lambda n, ps: ("method", n, ps, False, None)
+    out = []
+    leaf = [("struct", "L%d" % i, [("uint32", 1, "x"), ("uint32", 1, "y")]) for i in range(6)]
+    mid = [("struct", "Mid%d" % i, [("L%d" % ((2 * i + j) % 6), 1, "m%d" % j) for j in range(3)]) for i in range(3)]
+    top = ("struct", "Outer", [("Mid%d" % i, 1, "a%d" % i) for i in range(3)] + [("L%d" % i, 2, "b%d" % i) for i in range(6)])
+    user = ("iface", "IUse", None, [M("f", [("in", "Outer", None, "o"), ("out", "Mid1", None, "m")]), M("g", [("in", "L%d" % i, None, "p%d" % i) for i in range(6)])])
+    # users first, then the containers, then what they contain
+    out.append({"files": [{"path": "src/main.idl", "includes": [], "decls": [user, top] + mid + leaf}], "main": "src/main.idl", "idirs": ["inc"]})
+    out.append({"files": [{"path": "src/main.idl", "includes": [], "decls": [top] + list(reversed(leaf)) + mid + [user]}], "main": "src/main.idl", "idirs": ["inc"]})
+    # an interface naming many interfaces declared further down, and many included files
+    later = [("iface", "ILater%d" % i, None, [M("m", [("in", "uint32", None, "x")])]) for i in range(6)]
+    hub = ("iface", "IHub", None, [M("open%d" % i, [("out", "ILater%d" % i, None, "o")]) for i in range(6)] + [M("all", [("in", "ILater%d" % i, None, "p%d" % i) for i in range(6)])])
+    out.append({"files": [{"path": "src/main.idl", "includes": [], "decls": [hub] + later}], "main": "src/main.idl", "idirs": ["inc"]})
+    incs = [{"path": "inc/part%d.idl" % i, "includes": [], "decls": [("struct", "P%d" % i, [("uint64", 1, "v")]), ("iface", "IPart%d" % i, None, [M("get", [("out", "P%d" % i, None, "v")])])]} for i in range(7)]
+    main = {"path": "src/main.idl", "includes": ["part%d.idl" % i for i in (3, 0, 6, 2, 5, 1, 4)],
+            "decls": [("struct", "All", [("P%d" % i, 1, "p%d" % i) for i in range(7)]),
+                      ("iface", "IAll", "IPart3", [M("every", [("in", "All", None, "a")] + [("in", "IPart%d" % i, None, "q%d" % i) for i in range(7)])])]}
+    out.append({"files": [main] + incs, "main": "src/main.idl", "idirs": ["inc"]})
+    return out
+
+
 def snapshot(outdir):
     snap = {}
     for root, _, files in os.walk(outdir):
@@ -76,6 +100,7 @@ def run(ctx):
         cases.append(json.load(open(ctx["replay"]))["fileset"])
     else:
         rng = vlib.mkrng(seed, prop)
+        cases += corpus_cases()
         for k in range(n):
             cases.append(gen_case(rng, k))
     res = {"coverage": {}, "failures": [], "corr_broken": []}
